@@ -169,6 +169,20 @@ Theorem C16_connections_independent :
     option_map (fun c => run classify handler c (events_for j evs)) (nth_error d j).
 Proof. exact connections_independent. Qed.
 
+(* Non-interference over the product system (the director = all its connections): events on OTHER
+   connections (garbage, oversized headers, a peer vanishing mid-frame, stop, failing drains, anything),
+   inserted anywhere in a history, leave connection a (its replies written, queued and dropped, its
+   handlers in flight, its status) exactly as without them.  Rests on the generated fact
+   connection_state_per_instance (each connection creates its own _tasks / _completed / _stop_event and
+   the server hands in nothing shared); with a shared task set the product step cancels the other
+   connections' handlers and this no longer holds. *)
+Theorem C16_other_connections_do_not_interfere :
+  forall classify handler (d : director) (evs1 evs2 noise : list (nat * event)) a,
+    Forall (fun ie => fst ie <> a) noise ->
+    nth_error (run_director classify handler d (evs1 ++ noise ++ evs2)) a =
+    nth_error (run_director classify handler d (evs1 ++ evs2)) a.
+Proof. exact other_connections_do_not_interfere. Qed.
+
 (* No stuck state: every event is accepted in every state (step is a total function), and from
    every reachable state the connection can still end: after stop(), one failing drain and the
    completion of the handlers in flight, serve() has returned or raised.
